@@ -3,6 +3,7 @@
 package space
 
 import (
+	"strconv"
 	"fmt"
 	"sort"
 	"strings"
@@ -39,6 +40,9 @@ type Ty struct {
 type Field struct {
 	Name string
 	T    *Ty
+	Tag  string // struct tag (part of the type's identity)
+	// Embedded: declared without a field name; Name is the (unqualified) type name as in Go
+	Embedded bool
 }
 
 // Const is an enum member.
@@ -113,10 +117,13 @@ func (t *Ty) Go(fromPkg string) string {
 			if i > 0 {
 				b.WriteString("; ")
 			}
-			if f.Name == "" { // embedded
+			if f.Embedded || f.Name == "" {
 				b.WriteString(f.T.Go(fromPkg))
 			} else {
 				b.WriteString(f.Name + " " + f.T.Go(fromPkg))
+			}
+			if f.Tag != "" {
+				b.WriteString(" " + strconv.Quote(f.Tag))
 			}
 		}
 		b.WriteString("}")
@@ -134,6 +141,9 @@ func (t *Ty) Go(fromPkg string) string {
 			return "<-chan " + t.Elem.Go(fromPkg)
 		case "->":
 			return "chan<- " + t.Elem.Go(fromPkg)
+		}
+		if t.Elem.K == Chan && t.Elem.Name == "<-" {
+			return "chan (" + t.Elem.Go(fromPkg) + ")" // chan <-chan T would parse as chan<- (chan T)
 		}
 		return "chan " + t.Elem.Go(fromPkg)
 	case Error:
@@ -193,7 +203,7 @@ func subst(t *Ty, args []*Ty) *Ty {
 		n := *t
 		n.Fields = nil
 		for _, f := range t.Fields {
-			n.Fields = append(n.Fields, Field{f.Name, subst(f.T, args)})
+			n.Fields = append(n.Fields, Field{Name: f.Name, T: subst(f.T, args), Tag: f.Tag, Embedded: f.Embedded})
 		}
 		return &n
 	}
